@@ -114,6 +114,8 @@ impl<T> Block<T> {
         if index >= BLOCK_SIZE {
             return Err(value);
         }
+        #[cfg(metrics_verif)]
+        metrics::verif::point("bucket.block_push.after_claim", index);
 
         // SAFETY:
         // - We never index outside of our block size.
@@ -125,6 +127,8 @@ impl<T> Block<T> {
             self.slots.get_unchecked(index).assume_init_ref().get().write(value);
         }
 
+        #[cfg(metrics_verif)]
+        metrics::verif::point("bucket.block_push.after_write", index);
         // Scoot our read index forward.
         self.read.fetch_or(1 << index, Ordering::AcqRel);
 
@@ -137,6 +141,8 @@ unsafe impl<T: Sync> Sync for Block<T> {}
 
 impl<T> Drop for Block<T> {
     fn drop(&mut self) {
+        #[cfg(metrics_verif)]
+        metrics::verif::point("bucket.block.drop", 0);
         while !self.is_quiesced() {}
 
         // SAFETY:
@@ -233,6 +239,8 @@ impl<T> AtomicBucket<T> {
                 }
             }
 
+            #[cfg(metrics_verif)]
+            metrics::verif::point("bucket.push.after_tail_load", 0);
             // We have a block now, so we need to try writing to it.
             let tail_block = unsafe { tail.deref() };
             match tail_block.push(original) {
@@ -251,8 +259,12 @@ impl<T> AtomicBucket<T> {
                         // We managed to install the block, so we need to link this new block to
                         // the nextious block.
                         Ok(ptr) => {
+                            #[cfg(metrics_verif)]
+                            metrics::verif::point("bucket.push.after_block_cas", 0);
                             let new_tail = unsafe { ptr.deref() };
                             new_tail.next.store(tail, Ordering::Release);
+                            #[cfg(metrics_verif)]
+                            metrics::verif::point("bucket.push.after_link", 0);
 
                             // Now push into our new block.
                             match new_tail.push(value) {
@@ -304,6 +316,8 @@ impl<T> AtomicBucket<T> {
         // While we have a valid block -- either `tail` or the next block as we keep reading -- we
         // load the data from each block and process it by calling `f`.
         let mut block_ptr = self.tail.load(Ordering::Acquire, guard);
+        #[cfg(metrics_verif)]
+        metrics::verif::point("bucket.data.after_tail_load", 0);
         while !block_ptr.is_null() {
             let block = unsafe { block_ptr.deref() };
 
@@ -311,8 +325,12 @@ impl<T> AtomicBucket<T> {
             // snoozing specifically yields the reading thread to ensure things are given a
             // chance to complete.
             while !block.is_quiesced() {
+                #[cfg(metrics_verif)]
+                metrics::verif::point("bucket.data.spin", 0);
                 backoff.snooze();
             }
+            #[cfg(metrics_verif)]
+            metrics::verif::point("bucket.data.after_quiesce", 0);
 
             // Read the data out of the block.
             let data = block.data();
@@ -359,6 +377,8 @@ impl<T> AtomicBucket<T> {
         // will see it as empty until another write proceeds.
         let guard = &epoch_pin();
         let mut block_ptr = self.tail.load(Ordering::Acquire, guard);
+        #[cfg(metrics_verif)]
+        metrics::verif::point("bucket.clear.after_tail_load", 0);
         if !block_ptr.is_null()
             && self
                 .tail
@@ -371,6 +391,8 @@ impl<T> AtomicBucket<T> {
                 )
                 .is_ok()
         {
+            #[cfg(metrics_verif)]
+            metrics::verif::point("bucket.clear.after_detach", 0);
             let backoff = Backoff::new();
             let mut freeable_blocks = Vec::new();
 
@@ -383,12 +405,18 @@ impl<T> AtomicBucket<T> {
                 // snoozing specifically yields the reading thread to ensure things are given a
                 // chance to complete.
                 while !block.is_quiesced() {
+                    #[cfg(metrics_verif)]
+                    metrics::verif::point("bucket.clear.spin", 0);
                     backoff.snooze();
                 }
+                #[cfg(metrics_verif)]
+                metrics::verif::point("bucket.clear.after_quiesce", 0);
 
                 // Read the data out of the block.
                 let data = block.data();
                 f(data);
+                #[cfg(metrics_verif)]
+                metrics::verif::point("bucket.clear.after_read", 0);
 
                 // Load the next block and take the shared reference to the current.
                 let old_block_ptr =
